@@ -114,11 +114,12 @@ Notes: if rtol is None, use max rtol; if rtol < 0, use quick-n-dirty method
     # inject some randomness #XXX: what are alternatives? some sampling?
     if dist is None: return pts
     if not len(pts): return pts
+    import numpy as np
     if hasattr(dist, '__len__'): #FIXME: isiterable
-      import numpy as np
       pts += np.array(tuple(di(len(pts)) for di in dist)).T
     else:
       pts += dist((len(pts),len(pts[0])))
+    pts = np.clip(pts, lb, ub) # stay within the bounds
     return pts.tolist()
 
 
